@@ -50,6 +50,10 @@ def deadlock():
         [op("spawn_future", v=1), op("spawn_future", v=2), op("detach", v=1), op("detach", v=2), op("yield"), op("load", o=0)],
         [op("await_flag", o=0), op("store", o=0, v=1)],
         [op("ayield"), op("store", o=0, v=2), op("ayield"), op("store", o=0, v=3)]], nflags=1, atomics=[0], kinds=["thread", "future", "future"]))
+    # a task panics while another one is blocked: the run ends with that panic
+    P.append(prog(111, "corpus_deadlock", [
+        [op("spawn", v=1), op("lock", o=0, w=0), op("yield"), op("unlock", w=0), op("join", v=1)],
+        [op("load", o=0), op("panic", v=7)]], nmutex=1, atomics=[0]))
     # semaphore without enough permits
     P.append(prog(107, "corpus_deadlock", [
         [op("spawn", v=1), op("acquire", o=0, v=2), op("join", v=1)],
